@@ -42,6 +42,37 @@ def family(outer_src, tree):
     return type(body).__name__
 
 
+def lambda_signatures():
+    """Every shape of a lambda's parameter list: 0-2 positional-only, 0-2 positional-or-keyword, *args or not, 0-2 keyword-only, **kwargs or not,
+    defaults on the last parameter of a group or nowhere (the markers `/` and `*` are what is at stake)."""
+    out = []
+    for npo, npk, var, nko, kw, dflt in itertools.product(range(3), range(3), (0, 1), range(3), (0, 1), (0, 1)):
+        po = [f"p{i}" for i in range(npo)]
+        pk = [f"q{i}" for i in range(npk)]
+        ko = [f"k{i}" for i in range(nko)]
+        if dflt:
+            # defaults must be trailing among the positional parameters
+            if pk:
+                pk[-1] += "=1"
+            elif po:
+                po[-1] += "=1"
+            if ko:
+                ko[0] += "=2"
+        parts = list(po)
+        if po:
+            parts.append("/")
+        parts += pk
+        if var:
+            parts.append("*args")
+        elif ko:
+            parts.append("*")
+        parts += ko
+        if kw:
+            parts.append("**kw")
+        out.append(f"lambda {', '.join(parts)}: 0" if parts else "lambda: 0")
+    return out
+
+
 def gen_sources(depth2=True):
     seen = set()
     level1 = []
@@ -52,6 +83,7 @@ def gen_sources(depth2=True):
         for a, b in itertools.product(ATOMS[:6], repeat=2):
             level1.append(t.format(a, b))
     level1.append("a == b != c")
+    level1 += lambda_signatures()
     for s in ATOMS + level1:
         if s not in seen:
             seen.add(s)
